@@ -26,7 +26,7 @@ func init() {
 		[]string{"ORD-1", "ORD-2", "ORD-3", "ORD-5", "ORD-13", "TOK-1", "TOK-5", "OWN-3", "OWN-4", "OWN-5", "OWN-8", "OWN-9", "ERR-8", "TOK-15", "COD-11"},
 		"path-sensitive must-pass-through and typestate over SSA; who-may rules",
 		lvlCommon, noteCommon,
-		"Decides on every path: accept order (capacity test → Save=nil → enqueue → acceptN++; error ⇒ nothing enqueued/counted/written; first write only without backlog), resend (ascending from the acknowledgement counter, Load=nil and found → write=nil per iteration, DUP condition, both resends nil before the connection is published, under both sequence tokens and the write token), acknowledgement handlers (Delete/Save=nil before counter++ before close/forward; error returns carry no effect), every stream/handler/Persistence error in readSlices resets the connection; token balance and lock order; who may write the counters, delete records and close exchanges. Third round: No error of the stream, a handler, the acknowledgement write, resend or the Persistence is stepped over (the next step happens with the error nil, is its return, or the reset); submitN becomes exactly seqNo+1; known functions do not inherit the ownership of their callers; Client.Config is read only. Not decided: that the broker is eventually reached; payload bytes on the wire.",
+		"Decides on every path: accept order (capacity test → Save=nil → enqueue → acceptN++; error ⇒ nothing enqueued/counted/written; first write only without backlog), resend (ascending from the acknowledgement counter, Load=nil and found → write=nil per iteration, DUP condition, both resends nil before the connection is published, under both sequence tokens and the write token), acknowledgement handlers (Delete/Save=nil before counter++ before close/forward; error returns carry no effect), every stream/handler/Persistence error in readSlices resets the connection; token balance and lock order; who may write the counters, delete records and close exchanges. Third round: No error of the stream, a handler, the acknowledgement write, resend or the Persistence is stepped over (the next step happens with the error nil, is its return, or the reset); submitN becomes exactly seqNo+1; known functions do not inherit the ownership of their callers; Client.Config is read only. Fourth round: a sequence token goes back into the semaphore it was taken from (TOK-15); the identifier of a new message is composed from the accept count; the inbound marker key expressions agree (COD-11). Not decided: that the broker is eventually reached; payload bytes on the wire.",
 		asmCommon)
 	prop("C02", "restart resumes exactly the unacknowledged set", "§4 C02",
 		[]string{"ADP-1", "ADP-4", "ADP-7", "ADP-8", "COD-1", "COD-8", "COD-9", "ORD-1", "ORD-3", "ORD-4", "OWN-8", "ADP-9", "COD-10", "ERR-8", "COD-11"},
@@ -44,13 +44,13 @@ func init() {
 		[]string{"ORD-4", "ORD-6", "COD-11", "OWN-3", "ORD-11", "ORD-7"},
 		"path-sensitive must-pass-through over onPUBLISH, readSlices, onPUBREL; key-expression agreement",
 		lvlCommon, noteCommon,
-		"Decides: a QoS 2 delivery lies behind a marker Load that returned (nil,nil); every delivered QoS 1/2 message leaves the matching acknowledgement with the identifier parsed in the same call; a recognised duplicate is answered with PUBREC and not delivered; no error return leaves an acknowledgement queued (except the retried PUBREC of a duplicate); the flush saves the marker (nil) before PUBREC and truncates only behind a nil write; the read loop continues only with pendingAck empty; onPUBREL deletes (nil) before PUBCOMP regardless of the marker's existence; the three marker key expressions agree; toOffline keeps pendingAck. Third round: A flush without marker Save lies behind pendingAck[0]>>4 != typePUBREC; errDupe is never served and never returned to the application; the PUBREC for a duplicate carries the parsed identifier; a parked BigMessage is flushed and cleared at entry. Not decided: once-per-cycle delivery over histories with restarts (needs marker contents).",
+		"Decides: a QoS 2 delivery lies behind a marker Load that returned (nil,nil); every delivered QoS 1/2 message leaves the matching acknowledgement with the identifier parsed in the same call; a recognised duplicate is answered with PUBREC and not delivered; no error return leaves an acknowledgement queued (except the retried PUBREC of a duplicate); the flush saves the marker (nil) before PUBREC and truncates only behind a nil write; the read loop continues only with pendingAck empty; onPUBREL deletes (nil) before PUBCOMP regardless of the marker's existence; the three marker key expressions agree; toOffline keeps pendingAck. Third round: A flush without marker Save lies behind pendingAck[0]>>4 != typePUBREC; errDupe is never served and never returned to the application; the PUBREC for a duplicate carries the parsed identifier; a parked BigMessage is flushed and cleared at entry. Fourth round: handshake returns the one reader that read the CONNACK (bytes that arrive with it are not lost). Not decided: once-per-cycle delivery over histories with restarts (needs marker contents).",
 		asmCommon)
 	prop("C05", "acceptance order, DUP only on re-delivery", "§4 C05",
 		[]string{"TOK-1", "TOK-5", "ORD-1", "ORD-2", "OWN-6", "OWN-2", "OWN-9", "COD-1", "COD-8", "ERR-8", "TOK-15"},
 		"token typestate and lock-order graph; must-pass-through; who-may rules",
 		lvlCommon, noteCommon,
-		"Decides: the sequence token is held across Save, enqueue and first write on every path (released only by the deferred unlock); sequence tokens are acquired before the write token in submitPersisted and connect (acyclic order graph); a backlog forbids an overtaking write; resend ascends from the oldest unacknowledged with DUP iff seqNo<submitN and PUBLISH; nobody else sets DUP or writes to the wire. Third round: submitN becomes exactly seqNo+1 behind a nil write; resend and the accept path examine every error. Not decided: observed wire order under real schedules (follows from the above only given Go's channel semantics).",
+		"Decides: the sequence token is held across Save, enqueue and first write on every path (released only by the deferred unlock); sequence tokens are acquired before the write token in submitPersisted and connect (acyclic order graph); a backlog forbids an overtaking write; resend ascends from the oldest unacknowledged with DUP iff seqNo<submitN and PUBLISH; nobody else sets DUP or writes to the wire. Third round: submitN becomes exactly seqNo+1 behind a nil write; resend and the accept path examine every error. Fourth round: a sequence token goes back into the semaphore it was taken from (TOK-15). Not decided: observed wire order under real schedules (follows from the above only given Go's channel semantics).",
 		asmCommon)
 	prop("C06", "inbound bytes exact under any fragmentation", "§4 C06",
 		[]string{"ORD-11", "ORD-12", "ORD-13", "ORD-14", "ORD-6", "COD-4", "ERR-8", "ORD-4", "ORD-7"},
@@ -69,7 +69,7 @@ func init() {
 		[]string{"TOK-1", "TOK-2", "TOK-4", "OWN-1", "OWN-2", "ORD-13", "ORD-8", "ORD-2", "ERR-7", "COD-6"},
 		"token typestate with release-value rule; who-may rules; loop-carried-remainder rule",
 		lvlCommon, noteCommon,
-		"Decides: every wire write happens in writeTo/writeBuffersTo, called only by holders of the write token (or owners of an unpublished connection); after a failed or unchecked wire call the connection is never put back into writeSem; retry loops send exactly the unsent suffix (writeTo: p[n:]; writeBuffersTo: the receiver WriteTo already consumed is never re-sliced) and only after progress and a timeout; success is returned only behind a nil I/O result; DISCONNECT is the last write before Close; the connection is published only after both resends returned nil. Third round: Disconnect, like the request methods, returns an error derived from a failed write. Not decided: the io.Writer contract of the user's net.Conn.",
+		"Decides: every wire write happens in writeTo/writeBuffersTo, called only by holders of the write token (or owners of an unpublished connection); after a failed or unchecked wire call the connection is never put back into writeSem; retry loops send exactly the unsent suffix (writeTo: p[n:]; writeBuffersTo: the receiver WriteTo already consumed is never re-sliced) and only after progress and a timeout; success is returned only behind a nil I/O result; DISCONNECT is the last write before Close; the connection is published only after both resends returned nil. Third round: Disconnect, like the request methods, returns an error derived from a failed write. Fourth round: no buffer of a multi-buffer packet is handed to a writer on its own (the write token would be released inside the packet); CONNECT size and bytes agree (COD-6). Not decided: the io.Writer contract of the user's net.Conn.",
 		asmCommon)
 	prop("C09", "emitted packets decode to the request; invalid input denied without trace", "§4 C09",
 		[]string{"ORD-10", "COD-5", "COD-6", "COD-7", "COD-13", "ERR-4", "COD-1", "ORD-7"},
@@ -93,13 +93,13 @@ func init() {
 		[]string{"TOK-1", "TOK-2", "TOK-3", "TOK-7", "TOK-8", "TOK-11", "PAN-2", "PAN-4", "ORD-7", "ORD-8", "ERR-2", "TOK-14", "ORD-11", "ORD-6"},
 		"token typestate (closer summaries, closed-aware receives); rendezvous rule; must-pass-through",
 		lvlCommon, noteCommon,
-		"Decides: Close/Disconnect cancel the context before waiting for connSem, take connSem, take or interrupt the writer, and close both tokens exactly once while holding both (a second call sees the closed channel and touches nothing); every receive from a closable token is comma-ok or under the closer's lock; the dialAndConnect watcher and the termCallbacks goroutines have their rendezvous partner on every path; signal flips happen under the write token with the opposite signal blocked first; no method is called on a connSignal or nil connection; ReadSlices calls termCallbacks on ErrClosed, queued exchanges get ErrClosed and stay open; DISCONNECT is the last packet; not-submitted classes imply no wire call. Third round: Close and Disconnect close the connection (or know there is none) before a plain receive of the write token; the connection is handed to connSem before the retransmission round; WaitGroup.Add precedes each go statement; a blocked signal is followed by the release of the other. Not decided: 'promptly' as a time bound; goroutine-leak freedom beyond the spawned closures having exits on all paths.",
+		"Decides: Close/Disconnect cancel the context before waiting for connSem, take connSem, take or interrupt the writer, and close both tokens exactly once while holding both (a second call sees the closed channel and touches nothing); every receive from a closable token is comma-ok or under the closer's lock; the dialAndConnect watcher and the termCallbacks goroutines have their rendezvous partner on every path; signal flips happen under the write token with the opposite signal blocked first; no method is called on a connSignal or nil connection; ReadSlices calls termCallbacks on ErrClosed, queued exchanges get ErrClosed and stay open; DISCONNECT is the last packet; not-submitted classes imply no wire call. Third round: Close and Disconnect close the connection (or know there is none) before a plain receive of the write token; the connection is handed to connSem before the retransmission round; WaitGroup.Add precedes each go statement; a blocked signal is followed by the release of the other. Fourth round: toOffline drops the read state (readConn, bufr, peek, bigMessage) also when it finds the client closed, so that the next ReadSlices reaches connect and reports ErrClosed (F20, repaired); a parked BigMessage is cleared by readSlices itself on every exit. Not decided: 'promptly' as a time bound; goroutine-leak freedom beyond the spawned closures having exits on all paths.",
 		asmCommon)
 	prop("C13", "hostile broker input", "§4 C13",
 		[]string{"COD-2", "COD-3", "COD-4", "PAN-1", "PAN-2", "PAN-4", "ERR-6", "ORD-5", "ORD-3", "OWN-4", "ORD-13", "ORD-14", "ERR-8", "ORD-11", "ORD-7", "ORD-6"},
 		"dispatch exhaustiveness; guard dominance on entry paths; induction evaluation of the length loop; compiler bounds-check listing against a reasoned table",
 		lvlCommon, noteCommon,
-		"Decides: the head>>4 switch covers all sixteen types (eight handlers, eight sentinels wrapping errProtoReset); per handler the length, zero-identifier, identifier-space, next-in-line and queue-depth guards dominate the first effect; the remaining-length loop continues only while shift ≤ 14 (≤ 4 bytes); every bounds check the compiler could not prove matches a table row with its guard; validation failures wrap errProtoReset and every handler error resets the connection; completion and deletion happen only in the guarded in-order handlers; blocking reads follow a fresh deadline. Known finding F14 (ReadAll without deadline) is reported as KNOWN-FINDING. Third round: The length decode is evaluated exactly for shift 0…28 (four bytes read, each may end the decode, 0x7f/0x80 split); the PUBLISH length guards are exact (topic end ≤ len, len ≥ end+2); the bounds-check guards bound the indexed value itself; unproven checks in helpers introduced later are discharged by the precondition at every call. Not decided: semantics for arbitrary bytes beyond these guards (tolerated unsolicited SUBACK/PINGRESP are deliberate).",
+		"Decides: the head>>4 switch covers all sixteen types (eight handlers, eight sentinels wrapping errProtoReset); per handler the length, zero-identifier, identifier-space, next-in-line and queue-depth guards dominate the first effect; the remaining-length loop continues only while shift ≤ 14 (≤ 4 bytes); every bounds check the compiler could not prove matches a table row with its guard; validation failures wrap errProtoReset and every handler error resets the connection; completion and deletion happen only in the guarded in-order handlers; blocking reads follow a fresh deadline. Known finding F14 (ReadAll without deadline) is reported as KNOWN-FINDING. Third round: The length decode is evaluated exactly for shift 0…28 (four bytes read, each may end the decode, 0x7f/0x80 split); the PUBLISH length guards are exact (topic end ≤ len, len ≥ end+2); the bounds-check guards bound the indexed value itself; unproven checks in helpers introduced later are discharged by the precondition at every call. Fourth round: handshake returns the one reader that read the CONNACK; toOffline clears a parked BigMessage. Not decided: semantics for arbitrary bytes beyond these guards (tolerated unsolicited SUBACK/PINGRESP are deliberate).",
 		asmCommon)
 	prop("C14", "documented error classes; not-submitted means nothing sent", "§4 C14",
 		[]string{"ERR-1", "ERR-2", "ERR-3", "ERR-4", "ERR-5", "ERR-6", "ERR-7", "ORD-1", "ERR-8"},
@@ -117,13 +117,13 @@ func init() {
 		[]string{"ADP-1", "ADP-2", "ADP-3", "ADP-4", "ADP-5", "ADP-6", "ADP-7", "ADP-8", "ORD-2", "ORD-9", "COD-10", "ERR-8", "ADP-10"},
 		"path rules and structural checks on AdoptSession and cleanSequence",
 		lvlCommon, noteCommon,
-		"Decides: every branch that warns also abandons what it names (corrupt record: delete+warn+continue before classification; PUBREL gap: list emptied; cleanSequence: prefix dropped and scan restarted at the first pair); every listed key is integrity checked; counters and placeholders come from cleanSequence results; capacity checks precede the placeholders and treat negative limits as default; fatal results stem only from Config, List, Load and the Max checks; wrap tests compare with the start of their range; resend needs the contiguity these establish. Third round: The Max checks compare the sum of the right lists after the last list update; the client identifier record is skipped before Delete and filing; the running maximum; the adjacency decisions on test vectors; List's filter. Not decided: which records survive a given damage pattern; a damaged client-identifier record.",
+		"Decides: every branch that warns also abandons what it names (corrupt record: delete+warn+continue before classification; PUBREL gap: list emptied; cleanSequence: prefix dropped and scan restarted at the first pair); every listed key is integrity checked; counters and placeholders come from cleanSequence results; capacity checks precede the placeholders and treat negative limits as default; fatal results stem only from Config, List, Load and the Max checks; wrap tests compare with the start of their range; resend needs the contiguity these establish. Third round: The Max checks compare the sum of the right lists after the last list update; the client identifier record is skipped before Delete and filing; the running maximum; the adjacency decisions on test vectors; List's filter. Fourth round: the client identifier record is not integrity-checked at adoption (ADP-10): known finding F21, reported as KNOWN-FINDING. Not decided: which records survive a given damage pattern; a damaged client-identifier record.",
 		asmCommon)
 	prop("C17", "identifiers unique and bounded; excess gets ErrMax", "§4 C17",
 		[]string{"COD-1", "COD-12", "ORD-1", "ORD-3", "TOK-12", "ADP-5", "ADP-7", "ADP-9", "TOK-15"},
 		"constant evaluation; dominance and path rules",
 		lvlCommon, noteCommon,
-		"Decides: the four identifier spaces are pairwise disjoint, exclude zero and fit 16 bits; both queue capacities are clamped to ≤ publishIDMask+1 on every path of newClient; the ErrMax test dominates Save and the non-blocking enqueue, and acceptN advances exactly once per accepted message; a queue slot is released only behind a nil Delete; startTx tests the window and skips identifiers still in use, under the mutex; AdoptSession's wrap adjustments and Max checks. Third round: The effective limit is decided for nine representative …Max settings (negative and oversized give publishIDMask+1, others are kept); the accept counts AdoptSession installs (ADP-9). Not decided: uniqueness as a statement over histories (follows from bounded window + modulus only with counter arithmetic, not checked numerically).",
+		"Decides: the four identifier spaces are pairwise disjoint, exclude zero and fit 16 bits; both queue capacities are clamped to ≤ publishIDMask+1 on every path of newClient; the ErrMax test dominates Save and the non-blocking enqueue, and acceptN advances exactly once per accepted message; a queue slot is released only behind a nil Delete; startTx tests the window and skips identifiers still in use, under the mutex; AdoptSession's wrap adjustments and Max checks. Third round: The effective limit is decided for nine representative …Max settings (negative and oversized give publishIDMask+1, others are kept); the accept counts AdoptSession installs (ADP-9). Fourth round: the identifier of a new message is composed from the accept count, never the submit count (ORD-1); sequence tokens return to their own semaphore (TOK-15). Not decided: uniqueness as a statement over histories (follows from bounded window + modulus only with counter arithmetic, not checked numerically).",
 		asmCommon)
 	prop("C18", "connection set-up", "§4 C18",
 		[]string{"ORD-7", "ORD-2", "TOK-1", "TOK-4", "ERR-2", "ERR-6", "ERR-8", "TOK-5"},
@@ -141,6 +141,6 @@ func init() {
 		[]string{"MCK-1", "MCK-2", "MCK-3", "MCK-4", "MCK-5", "MCK-6", "MCK-7"},
 		"path enumeration over the finite truth table of each double's conditions",
 		lvlCommon, noteCommon,
-		"Decides: NewPublishMock reports exactly on the paths where message or topic differs; the subscribe mocks classify each filter (present ⇒ removed, absent ⇒ wrong) and report iff wrong or todo is non-empty; want[i] is only indexed behind i<len(want); a Cleanup reports unmet expectations; every double with a quit parameter examines it first and returns mqtt.ErrCanceled untouched; the ReadSlices stub returns per-call allocations; the exchange stub sends every scripted error and closes on exactly the exits that are neither after ErrClosed nor an indefinite block; explicit panics only in documented argument checks. Third round: The index is the atomic counter before its increment; an invocation beyond the list is reported (and fails, for ReadSlices); the stub's message is a sized copy; errFix is returned; the script validator is decided on positions (i, n) for nil entries, ErrClosed and indefinite blocks; a block entry with zero delay ends without close, others sleep. Not decided: real-time aspects of ExchangeBlock.Delay.",
+		"Decides: NewPublishMock reports exactly on the paths where message or topic differs; the subscribe mocks classify each filter (present ⇒ removed, absent ⇒ wrong) and report iff wrong or todo is non-empty; want[i] is only indexed behind i<len(want); a Cleanup reports unmet expectations; every double with a quit parameter examines it first and returns mqtt.ErrCanceled untouched; the ReadSlices stub returns per-call allocations; the exchange stub sends every scripted error and closes on exactly the exits that are neither after ErrClosed nor an indefinite block; explicit panics only in documented argument checks. Third round: The index is the atomic counter before its increment; an invocation beyond the list is reported (and fails, for ReadSlices); the stub's message is a sized copy; errFix is returned; the script validator is decided on positions (i, n) for nil entries, ErrClosed and indefinite blocks; a block entry with zero delay ends without close, others sleep. Fourth round: only the producer goroutine sends on or closes the exchange channel. Not decided: real-time aspects of ExchangeBlock.Delay.",
 		asmCommon)
 }
